@@ -9,7 +9,8 @@ LEVEL_TEXT = ('_Dequeue, _Get, _Release, _ProcessQueue, _DiscardSink and the que
               '_Get lends a cached connection that was not lent, creates one only below the high watermark (the count is raised before the yield, so the invariant holds while the connection opens), '
               'queues only at the high watermark with room, and fails only when pool and queue are full -- with an exception factory that is actually callable; '
               '_Release hands the connection on, caches it only at or below the low watermark, or closes and un-counts it; '
-              '_ProcessQueue, whose only precondition is the invariant and ownership of the connection, raises nothing, passes over only waiters whose call has already completed, serves the earliest remaining one, and releases the connection when nobody waits.')
+              '_ProcessQueue, whose only precondition is the invariant and ownership of the connection, raises nothing, passes over only waiters whose call has already completed, serves the earliest remaining one, and releases the connection when nobody waits.'
+              ' _Release with somebody waiting hands the connection to a queue-processing greenlet (it stays lent; it is neither cached nor closed), whatever the state of the waiter at the head of the queue; WatermarkPoolSink.__init__ establishes the accounting invariant.')
 LEVEL_NOTE = ('Trusted: pyvc encoding, z3; gevent switches only at Open().wait(); "a connection stays lent while the request it is lent to waits for it to open" (ownership) is a stated rely; '
               'provider CreateSink / sink Open/Close as assumed contracts; WatermarkPoolSink.Close (list-comprehension loops failing every waiter) is an assumed contract, not yet a verified unit; '
               '"started as soon as a connection is released" is the spawn in _Release, its scheduling is liveness.')
